@@ -288,6 +288,25 @@ def gen_instance(rng, *, d=None, k=None, N=None, vtype="sympy", fdkind=None,
             inst["fdkind"], inst["fd_blocks"], inst["masks"] = "none", [], {}
         if not well_posed(inst):
             raise Regenerate("corner instance ill posed")
+    if corner == "selective_last":
+        # corner stratum: a selective (dict) mask on the LAST block only, block size >= 3, a single
+        # pair eliminated (kept elements not block structured); block 0 carries no mask
+        b = nb - 1
+        st = [i for i in range(d) if sub_idx[i] == b]
+        if len(st) < 3 or nb < 2:
+            raise Regenerate("last block too small")
+        own = sorted({inst["E"][i] for i in st}, key=str)
+        if len(own) < 2:
+            raise Regenerate("last block has a single level")
+        E2 = list(inst["E"])
+        # make the first and last state of the block non-degenerate so that their pair may be eliminated
+        E2[st[0]], E2[st[-1]] = own[0], own[1]
+        inst["E"] = E2
+        msk = np.zeros((len(st), len(st)), dtype=bool)
+        msk[0, len(st) - 1] = msk[len(st) - 1, 0] = True
+        inst["fdkind"], inst["fd_blocks"], inst["masks"] = "dict", [b], {b: msk}
+        if not well_posed(inst):
+            raise Regenerate("corner instance ill posed")
     if corner == "degenerate_fd":
         # corner stratum: a fully diagonalised block holding a degenerate level whose states are
         # NOT adjacent in the basis ordering (energies x, y, x)
